@@ -2,6 +2,7 @@
 arrays, with an adversary caller that later writes into every buffer it passed in and tries to
 write into every array it was handed.  Serves C01.  DESIGN.md 5.1.
 '''
+import datetime
 import copy
 import inspect
 import pickle
@@ -155,7 +156,7 @@ class AliasWorld(WorldBase):
                                       {'range': [0, 2]}, {'ixkey': [0, 1]}, {'serkey': [1, 0]}, True]),
                     'extra': ch.randint(0, 47)}
         if what == 'operator':
-            return {'op': 'operator', 'h': h, 'which': ch.choice(['add', 'mul', 'eq', 'neg', 'invert', 'abs', 'matmul', 'lt', 'radd', 'self', 'floordiv', 'and', 'round', 'round1', 'rmatmul']),
+            return {'op': 'operator', 'h': h, 'which': ch.choice(['add', 'mul', 'eq', 'neg', 'invert', 'abs', 'matmul', 'lt', 'radd', 'self', 'floordiv', 'and', 'round', 'round1', 'rmatmul', 'add_td', 'sub_td', 'add_td64', 'sub_dt64', 'radd_td']),
                     'other_h': ch.choice(hs)}
         if what == 'go_grow':
             return {'op': 'go_grow', 'h': h, 'how': ch.choice(['to_frame_go', 'ctor_go', 'to_frame_go_twice', 'columns_go', 'index_go']), 'grow': ch.choice(['setitem', 'extend', 'extend_items', 'append'])}
@@ -847,7 +848,10 @@ class AliasWorld(WorldBase):
         w = op['which']
         site = f"{e.extra['kind']}.operator:{w}"
         fns = {'add': lambda: a + 1, 'mul': lambda: a * 2, 'eq': lambda: a == b, 'neg': lambda: -a, 'invert': lambda: ~a, 'abs': lambda: abs(a),
-               'matmul': lambda: a @ b, 'rmatmul': lambda: list(range(len(a))) @ a, 'round': lambda: round(a), 'round1': lambda: round(a, 1), 'lt': lambda: a < b, 'radd': lambda: 1 + a, 'self': lambda: a + b, 'floordiv': lambda: a // 2, 'and': lambda: a & b}
+               'matmul': lambda: a @ b, 'rmatmul': lambda: list(range(len(a))) @ a, 'round': lambda: round(a), 'round1': lambda: round(a, 1), 'lt': lambda: a < b, 'radd': lambda: 1 + a, 'self': lambda: a + b, 'floordiv': lambda: a // 2, 'and': lambda: a & b,
+               # durations and dates as the other operand: each operand type has its own branch in the date indices
+               'add_td': lambda: a + datetime.timedelta(days=1), 'sub_td': lambda: a - datetime.timedelta(days=2), 'radd_td': lambda: datetime.timedelta(days=1) + a,
+               'add_td64': lambda: a + np.timedelta64(1, 'D'), 'sub_dt64': lambda: a - np.datetime64('2019-12-31')}
         if w in ('matmul', 'rmatmul'):
             # NumPy 2.5.3 corrupts reference counts when an object-dtype matmul raises half way (segfault later, reproduced
             # without static-frame's help being needed); only numeric operands are multiplied
